@@ -138,3 +138,27 @@ func indexByte(s string, c byte) int {
 	}
 	return -1
 }
+
+// effResp returns the step by which operation o has certainly been processed by the broker: its own
+// acknowledgement, or — for a QoS 0 PUBLISH, which has none — the acknowledgement of the next
+// acknowledged operation the same client sent afterwards on the same connection (a connection's
+// packets are processed in order), or the end of the phase.
+func effResp(h *sim.History, o *sim.OpRec, ends map[int]int) int {
+	if o.Resp >= 0 && !(o.Op.K == "publish" && o.Op.QoS == 0) {
+		return o.Resp
+	}
+	if o.Op.K == "publish" && o.Inv >= 0 {
+		for _, x := range h.Ops[o.Idx+1:] {
+			if x.Phase != o.Phase {
+				break
+			}
+			if x.Op.C == o.Op.C && x.Conn == o.Conn && x.Inv > o.Inv && x.Resp >= 0 && x.Ack != nil {
+				return x.Resp
+			}
+		}
+	}
+	if e, ok := ends[o.Phase]; ok {
+		return e
+	}
+	return -1
+}
